@@ -122,6 +122,17 @@ Theorem C17_recv_n_sound : forall k stream sched ps rest sched',
   exists ms, Forall wmsg_ok ms /\ map wmsg_payload ms = ps /\ stream = wstream ms ++ rest.
 Proof. exact tcp_recv_n_sound. Qed.
 
+(* whole sessions, no hypothesis on what the meter sent: if every send() returned a payload, exactly the standard wrapped
+   requests were written, in order, and the stream consists of standard messages carrying exactly the payloads returned,
+   in that order, followed by exactly what is left unread *)
+Theorem C17_session_sound : forall client server reqs stream sched written ps rest sched' written',
+  bytes_ok stream ->
+  tcp_session client server reqs ((stream, sched), written) = (map Ok ps, ((rest, sched'), written')) ->
+  length ps = length reqs ->
+  written' = written ++ map (std_request client server) reqs /\
+  exists ms, Forall wmsg_ok ms /\ map wmsg_payload ms = ps /\ stream = wstream ms ++ rest.
+Proof. exact tcp_session_sound. Qed.
+
 Print Assumptions C17_recv_any_schedule.
 Print Assumptions C17_wrapper_roundtrip.
 Print Assumptions C17_recv_stream_any_schedule.
@@ -130,3 +141,4 @@ Print Assumptions C17_session_any_schedule.
 Print Assumptions C17_recv_sound.
 Print Assumptions C17_wrapper_decode_sound.
 Print Assumptions C17_recv_n_sound.
+Print Assumptions C17_session_sound.
